@@ -13,14 +13,16 @@ template <class D> std::string runCase(Toks& t) {
 	typedef OndriksMTBDD<typename D::T> M;
 	unsigned nv = (unsigned) t.num();
 	std::vector<std::unique_ptr<M>> hs;
+	// the apply functors live as long as the case: their internal caches are re-used across applications
+	std::map<unsigned, std::unique_ptr<F1<D>>> f1s; std::map<unsigned, std::unique_ptr<F2<D>>> f2s; std::map<unsigned, std::unique_ptr<F3<D>>> f3s;
 	while (!t.done()) {
 		std::string w = t.word();
 		if (w == "K") { unsigned v = t.num(); hs.emplace_back(new M(D::dec(v))); }
 		else if (w == "C") { std::string a = t.word(); unsigned v = t.num(), d = t.num(); hs.emplace_back(new M(mkAsgn(a), D::dec(v), D::dec(d))); }
 		else if (w == "Y") { unsigned a = t.num(); hs.emplace_back(new M(*hs.at(a))); }
-		else if (w == "U") { unsigned f = t.num(), a = t.num(); F1<D> fn(f); hs.emplace_back(new M(fn(*hs.at(a)))); }
-		else if (w == "B") { unsigned f = t.num(), a = t.num(), b = t.num(); F2<D> fn(f); hs.emplace_back(new M(fn(*hs.at(a), *hs.at(b)))); }
-		else if (w == "T") { unsigned f = t.num(), a = t.num(), b = t.num(), c = t.num(); F3<D> fn(f); hs.emplace_back(new M(fn(*hs.at(a), *hs.at(b), *hs.at(c)))); }
+		else if (w == "U") { unsigned f = t.num(), a = t.num(); if (!f1s.count(f)) f1s[f].reset(new F1<D>(f)); F1<D>& fn = *f1s[f]; hs.emplace_back(new M(fn(*hs.at(a)))); }
+		else if (w == "B") { unsigned f = t.num(), a = t.num(), b = t.num(); if (!f2s.count(f)) f2s[f].reset(new F2<D>(f)); F2<D>& fn = *f2s[f]; hs.emplace_back(new M(fn(*hs.at(a), *hs.at(b)))); }
+		else if (w == "T") { unsigned f = t.num(), a = t.num(), b = t.num(), c = t.num(); if (!f3s.count(f)) f3s[f].reset(new F3<D>(f)); F3<D>& fn = *f3s[f]; hs.emplace_back(new M(fn(*hs.at(a), *hs.at(b), *hs.at(c)))); }
 		else if (w == "P") { unsigned f = t.num(), mask = t.num(), a = t.num(); F2<D> fn(f);
 			hs.emplace_back(new M(hs.at(a)->Project([mask](size_t var) { return ((mask >> var) & 1u) != 0; }, fn))); }
 		else if (w == "R") { std::vector<size_t> r; for (unsigned i = 0; i < nv; ++i) r.push_back(t.num()); unsigned a = t.num();
